@@ -17,10 +17,14 @@ func TestC13(t *testing.T) {
 	// "=" re-applies the current template unchanged: at the level of API objects that is all an edit that only
 	// reorders map keys amounts to (JSON object keys have no order once decoded)
 	edits := &w.Alpha{PT: true, Templates: []string{"A", "B", "C", "="}}
+	// the same edits with a rejected List / Create / Delete of replica sets in the ExtendedDaemonSet reconcile
+	editsFaults := &w.Alpha{Templates: []string{"A", "B"}, EDSFaults: []string{"reject:list ExtendedDaemonSetReplicaSet", "lost:create ExtendedDaemonSetReplicaSet", "reject:delete ExtendedDaemonSetReplicaSet"}}
 	editsCanary := &w.Alpha{Templates: []string{"A", "B", "C"}, Kubectl: []string{"canary-validate", "canary-fail"}}
 	s2 := corpusS2(n, "1", b, edits)
 	s3 := corpusS3(n, "1", "auto", b-1, editsCanary)
-	scs := []scOpt{s2, s3}
+	s2f := corpusS2([]string{"n1"}, "1", 2, editsFaults)
+	s2f.name = "S2-edits-with-faults"
+	scs := []scOpt{s2, s3, s2f}
 	runWorld(t, run, scs, []func(*w.MonCtx){w.MonC13}, 0)
 	requireAntecedents(run, "C13/create", "C13/delete", "C13/podtemplate")
 	c13Lattice(t, run)
